@@ -739,6 +739,12 @@ def run(ctx) -> None:
     ctx.guard_as("R04.10", r08_3)  # plaintext shapes (empty, block-aligned): AES-CBC with PKCS#7 padding from the library, CBC-HMAC layout
     from .c08 import r08_4
     ctx.guard_as("R04.13", r08_4)  # ECDH-1PU: both sides compute Ze and Zs from the same key pairs (own private x other public), or nothing decrypts
+    from .common import every_recipient_tried
+    ctx.guard(every_recipient_tried, "R04.22")  # each recipient's key decrypts a multi-recipient message, whatever its position in the list
+    from .c08 import r08_5 as _r08_5
+    ctx.guard_as("R04.20", _r08_5)  # PBES2: the salt input and the count that were USED are the ones published in the header (else nothing decrypts)
+    from .c15 import r15_3 as _r15_3
+    ctx.guard_as("R04.21", _r15_3, "jwe")  # every valid header (apu / apv included) is accepted by the algorithm's own header table on both sides
     ctx.guard(r04_5)
     ctx.guard(r04_1)
     ctx.guard(r04_2)
